@@ -1787,8 +1787,6 @@ def s5_delta(ctx, rng):
 # S6: Independent / Constant / MarkovProduct / Scatter substitution vs python oracles (spec-only)
 # ------------------------------------------------------------------------------------------------
 
-KF_MARKOV = "KF-markov-subs-sequential"
-KF_SCATTER = "KF-scatter-subs-dropped"
 
 
 def _eval_closed(r, env):
@@ -1931,7 +1929,6 @@ def run_s6(ctx):
     mp_py = (hdr + f"trans = Tensor({_arr_py(trans_d)}, OrderedDict(t=Bint[2], a=Bint[2], b=Bint[2]))\nwith lazy:\n"
              "    mp = MarkovProduct(ops.add, ops.mul, trans, Variable('t', Bint[2]), frozenset({('a', 'b')}), "
              "frozenset({('a', 'a'), ('b', 'b')}))\n")
-    mp_bad = []
     for sig, spec, clash in (({"a": "c"}, lambda e: M[e["c"], e["b"]], False), ({"a": "b", "b": "a"}, lambda e: M[e["b"], e["a"]], False),
                              ({"a": "b"}, lambda e: M[e["b"], e["b"]], False), ({"a": 1}, lambda e: M[1, e["b"]], False),
                              ({"a": "c", "b": 1}, lambda e: M[e["c"], 1], False), ({"a": "b", "b": 0}, lambda e: M[e["b"], 0], True),
@@ -1947,17 +1944,8 @@ def run_s6(ctx):
         expn = {v for v in sig.values() if isinstance(v, str)} | ({"a", "b"} - set(sig))
         py = mp_py + f"with lazy:\n    r = mp(**{sig!r})\nr = reinterpret(r)\nprint(r.inputs, r)\nFAILS = True\n"
         if clash:
-            ok = set(r.inputs) == expn and all(s5_close(_eval_closed(r, e), float(spec(e)), True) for e in _all_envs(rng, r.inputs))
-            if not ok:
-                mp_bad.append({"sigma": sig, "got_inputs": sorted(r.inputs), "python": py})
-            continue
+            ctx.count("S6:markov:rename-target-is-a-lazy-key")   # HEAD declines eager_subs here (49bc2e2): stays a lazy Subs
         s6_compare(ctx, "markov", r, expn, lambda e, spec=spec: float(spec(e)), rng, {"stream": "S6.markov", "sigma": sig}, py)
-    listed = ctx.known(KF_MARKOV, reproduced=bool(mp_bad),
-                       what="lazy MarkovProduct: eager_subs renames step_names first, then Subs(result, lazy) hits the renamed-to name "
-                            "(mp(a='b', b=0) loses b): sequential, not simultaneous")
-    if mp_bad and not listed:
-        w_ = dict(mp_bad[0]); py = w_.pop("python")
-        ctx.fail("input", "C04.known." + KF_MARKOV, witness=w_, expected="M[b, 0] over {b}", got="input b substituted too", python=py)
     src_d = _dyarr(rng, (3,)); idx_d = np.array([2, 0, 1])
     with lazy:
         sc = Scatter(ops.add, (("i", Tensor(idx_d, OrderedDict(j=Bint[3]), 4)),), Tensor(src_d, OrderedDict(j=Bint[3])) + Variable("x", Real),
@@ -1965,8 +1953,7 @@ def run_s6(ctx):
     dense = np.zeros(4); dense[idx_d] = src_d
     sc_py = (hdr + f"with lazy:\n    sc = Scatter(ops.add, (('i', Tensor({_arr_py(idx_d)}, OrderedDict(j=Bint[3]), 4)),), "
              f"Tensor({_arr_py(src_d)}, OrderedDict(j=Bint[3])) + Variable('x', Real), frozenset({{Variable('j', Bint[3])}}))\n")
-    sc_bad = []
-    for sig, spec, region in (({"i": "k"}, lambda e: dense[e["k"]], False), ({"i": 2}, lambda e: dense[2], True),
+    for sig, spec, region in (({"i": "k"}, lambda e: dense[e["k"]], False), ({"i": 2}, lambda e: dense[2], True), ({"i": 3}, lambda e: dense[3], True),
                               ({"i": Tensor(np.array([0, 3]), OrderedDict(m=Bint[2]), 4)}, lambda e: dense[[0, 3][e["m"]]], True)):
         try:
             r = sc(**sig)
@@ -1977,19 +1964,11 @@ def run_s6(ctx):
             ctx.count(f"S6:scatter:declined:{type(ex).__name__}")
             continue
         expn = set().union(*[({v} if isinstance(v, str) else set(getattr(v, "inputs", ()))) for v in sig.values()])
-        py = sc_py + "r = sc(**SIGMA)  # see witness\nFAILS = True\n"
+        py = sc_py + f"r = sc(**{{'i': {('Tensor(np.array([0, 3]), OrderedDict(m=Bint[2]), 4)' if isinstance(sig['i'], Tensor) else repr(sig['i']))}}})\nprint(type(r).__name__, r.inputs)\nFAILS = 'i' in r.inputs\n"
         if region:
-            if "i" in r.inputs:
-                sc_bad.append({"sigma": {k: str(v) for k, v in sig.items()}, "got_inputs": sorted(r.inputs),
-                               "python": sc_py + "r = sc(i=2)\nprint(type(r).__name__, r.inputs)\nFAILS = 'i' in r.inputs\n"})
-                continue
+            ctx.count("S6:scatter:non-variable-destination")   # was silently dropped before 1ad895c
         s6_compare(ctx, "scatter", r0, expn, lambda e, spec=spec: float(spec(e)), rng,
                    {"stream": "S6.scatter", "sigma": {k: str(v) for k, v in sig.items()}}, py)
-    listed = ctx.known(KF_SCATTER, reproduced=bool(sc_bad),
-                       what="lazy Scatter: eager_subs drops every non-Variable substitution of a destination name (sc(i=2) is returned unchanged)")
-    if sc_bad and not listed:
-        w_ = dict(sc_bad[0]); py = w_.pop("python")
-        ctx.fail("input", "C04.known." + KF_SCATTER, witness=w_, expected="i substituted", got="Scatter returned unchanged", python=py)
 
 
 def run_s5(ctx, n, use_lean=True):
